@@ -21,6 +21,31 @@ CHECKS = {
              "(SingleSetup.T after decimate, pinned by a baseline test).",
         technique="TLC model checking of Setup.tla + replay of every emitted transition on real setup objects",
     ),
+    "C15": dict(
+        text="Setup.tla (orchestration alphabets: add / run_by_name / run_all / mpe / save+load) is model-checked for "
+             "Gated, ResultIsFunctionOfBinding, Isolation, NoDataChangeByOrchestration; every transition is executed on "
+             "real setups with real algorithm classes (FDD, FSDD, EFDD, SSIcov cov_mm/cov_R, SSIdat, pLSCF and the _MS "
+             "variants) and each stored result is compared bit-exactly with the same algorithm run alone in a fresh "
+             "setup on the scipy interpretation of the bound data term; Poser.tla enumerates the PoSER constructor's "
+             "decision table (0..3 setups x 0..2 algorithms [type, not run/run/extracted] x 0..3 names, 4 setups "
+             "sampled) and every configuration is built from real objects: Built iff Accept, else ValueError.",
+        ref="DESIGN.md §4.1, §4.3, §5 C15",
+        note="Trusted: TLC, scipy (data term), pickle, numpy.array_equal. Bit-equality is demanded only inside one "
+             "process with single-threaded BLAS. 'nothing is stored' is read as: no result object is stored.",
+        technique="TLC model checking of Setup.tla / Poser.tla + replay of every transition on real setups and algorithms",
+    ),
+    "C16": dict(
+        text="Pick.tla models the picker as a state machine over key/mouse events with the selection as a multiset "
+             "of <<frequency, order>> pairs; TLC checks Paired, Sorted, OrderIndependent, PickAddsOne, PickIsNearest, "
+             "NoOpWithoutModifier, DeselectShrinksByOne, NearestGoes; every transition is delivered as a synthetic "
+             "matplotlib event to a real head-less SelFromPlot (SSI, pLSCF, FDD variants) and lists + marker artist "
+             "are compared with the abstract selection; complete behaviours are replayed inside the real "
+             "mpe_from_plot of SSIcov / pLSCF / FDD and the extracted modes must be the selected cells.",
+        ref="DESIGN.md §4.6, §5 C16",
+        note="Trusted: TLC, harness/headless.py (Tk stand-ins; events enter through the dialog's own canvas wiring). "
+             "Exact ties may resolve either way. Diagram drawing is stubbed during the walk (real in the hand-over).",
+        technique="TLC model checking of Pick.tla + replay of every event sequence on the real dialog and mpe_from_plot",
+    ),
 }
 
 NOT_APPLICABLE = [
